@@ -7,6 +7,9 @@
 #include <iostream>
 #include <string>
 #include <unistd.h>
+#include <sys/stat.h>
+#include <filesystem>
+#include <fstream>
 void verif_ctl(std::ostream& os) {
   os << "// generated on " << time(nullptr) << '\n';                        // clock
   const auto n = std::chrono::system_clock::now();                          // chrono
@@ -16,5 +19,9 @@ void verif_ctl(std::ostream& os) {
   for (const auto& kv : m) { os << kv.first; }                               // unordered iteration
   int x = 0;
   os << &x;                                                                  // pointer insertion
+  struct stat b;
+  if (stat("src/out.cxx", &b) == 0) { os << "kept"; }                         // status read
+  if (std::filesystem::exists("include/out.hxx")) { os << "kept"; }          // status read
+  std::ifstream previous("src/out.cxx");                                     // reads a previous output
   os << std::getenv("HOME");                                                 // undocumented environment variable
 }
